@@ -70,6 +70,12 @@ theorem create_revert_condition : createRevertCond = "maxCodeSizeExceeded || (er
 
 theorem read_only_guard_as_modelled : readOnlyGuard = "in.readOnly && (operation.writes || (op == CALL && stack.Back(2).Sign() != 0)) -> ErrWriteProtection" := by decide
 
+/-- `Run` only ever SETS `in.readOnly` (and resets it on leaving the frame that set it): the flag is
+    sticky for everything nested below a STATICCALL, which is what `run`'s `ro` parameter models -/
+theorem read_only_sticky_as_modelled :
+    readOnlySticky = "if readOnly && !in.readOnly { in.readOnly = true; defer func() { in.readOnly = false }() }" := by
+  decide
+
 /-- `AccountDB.Prepare` assigns exactly these fields (transient storage is not among them) -/
 theorem prepare_assigns_as_modelled : prepareAssigns = ["accessList", "bhash", "thash", "txIndex"] := by decide
 
